@@ -12,7 +12,7 @@ type htmlState struct {
 	Mode string // DATA TAGOPEN TAGNAME INTAG ATTRNAME AFTERNAME BEFOREVALUE ATTR_DQ ATTR_SQ ATTR_UQ COMMENT SCRIPT STYLE ENDTAG BOGUS
 	Tag  string // current element (lower case)
 	Attr string // current attribute (lower case)
-	Js   string // inside SCRIPT: "" (code) ' " ` (string literal) // (line comment) /* (block comment)
+	Js   string // inside SCRIPT: stack of lexical contexts, innermost last (see advanceHTML): "" = code
 	Esc  bool   // inside a JS string: previous char was a backslash
 	Raw  string // SCRIPT/STYLE: pending text that may be the start of the end tag
 	Pend string // partial token (comment opener etc.)
@@ -187,17 +187,24 @@ func advanceHTML(s htmlState, lit string) htmlState {
 				i += 7
 				continue
 			}
-			switch s.Js {
-			case "":
+			// s.Js is the stack of JavaScript lexical contexts, innermost last: a quote character = inside that
+			// string literal, "{" = code inside a template-literal interpolation (one per open brace), "//" and "/*"
+			// = comments. Empty = top-level code.
+			switch top := jsTop(s.Js); top {
+			case "", "{":
 				switch {
 				case c == '\'' || c == '"' || c == '`':
-					s.Js = string(c)
+					s.Js += string(c)
 				case c == '/' && i+1 < len(lit) && lit[i+1] == '/':
-					s.Js = "//"
+					s.Js += "//"
 					i++
 				case c == '/' && i+1 < len(lit) && lit[i+1] == '*':
-					s.Js = "/*"
+					s.Js += "/*"
 					i++
+				case c == '{' && top == "{":
+					s.Js += "{"
+				case c == '}' && top == "{":
+					s.Js = s.Js[:len(s.Js)-1]
 				}
 			case "'", "\"", "`":
 				switch {
@@ -205,22 +212,38 @@ func advanceHTML(s htmlState, lit string) htmlState {
 					s.Esc = false
 				case c == '\\':
 					s.Esc = true
-				case string(c) == s.Js:
-					s.Js = ""
-				case c == '\n' && s.Js != "`":
-					s.Js = "" // unterminated string: the JS lexer gives up at the line end
+				case string(c) == top:
+					s.Js = s.Js[:len(s.Js)-1]
+				case c == '\n' && top != "`":
+					s.Js = s.Js[:len(s.Js)-1] // unterminated string: the JS lexer gives up at the line end
+				case c == '$' && top == "`" && i+1 < len(lit) && lit[i+1] == '{':
+					s.Js += "{" // ${ opens an interpolation: what follows is code until the matching }
+					i++
 				}
 			case "//":
 				if c == '\n' {
-					s.Js = ""
+					s.Js = s.Js[:len(s.Js)-2]
 				}
 			case "/*":
 				if c == '*' && i+1 < len(lit) && lit[i+1] == '/' {
-					s.Js = ""
+					s.Js = s.Js[:len(s.Js)-2]
 					i++
 				}
 			}
 		}
 	}
 	return s
+}
+
+// jsTop: the innermost JavaScript lexical context of a context stack.
+func jsTop(js string) string {
+	switch {
+	case js == "":
+		return ""
+	case strings.HasSuffix(js, "//"):
+		return "//"
+	case strings.HasSuffix(js, "/*"):
+		return "/*"
+	}
+	return js[len(js)-1:]
 }
